@@ -184,7 +184,7 @@ def gen_alias_history(rng):
 def report_alias(ctx, case, finds):
     for si, sym, detail in finds:
         call = case['steps'][si][0]
-        ctx.violation(dict(call=call, symptom='alias:' + sym), dict(case, step=si),
+        ctx.violation(dict(stream='aliasing', cause='shared_operation_object', call=call, symptom='alias:' + sym), dict(case, step=si),
                       'views consistent; the caller\'s Operation objects untouched; one parameter changes one entry of circuit.params',
                       jsonable(detail) if not isinstance(detail, str) else detail,
                       f'aliasing history, step {si} ({call}): {sym} - an Operation object handed to the circuit is shared with the caller / stored twice')
